@@ -68,3 +68,17 @@ pub open spec fn mint_reds(s: Seq<(PolicyID, ScriptMint)>) -> Seq<Redeemer> { mi
 impl Redeemers { pub uninterp spec fn items(&self) -> Seq<Redeemer>; }
 impl From<Vec<Redeemer>> for Redeemers { #[verifier::external_body] fn from(v: Vec<Redeemer>) -> (r: Redeemers) ensures r.items() == v@ { unimplemented!() } }
 impl Clone for Redeemer { #[verifier::external_body] fn clone(&self) -> (r: Self) ensures r == *self { unimplemented!() } }
+
+/// C10 (votes; the property names four purposes, the code has a fifth): a voting redeemer points at the position of its VOTER in the
+/// builder's voter map in ascending order (BTreeMap iteration, modelled as the sorted entry sequence) - one pointer per voter, however
+/// many votes the voter casts
+pub open spec fn vote_ptrs(s: Seq<(Voter, VoterVotes)>, tag: RedeemerTag) -> Seq<PlutusWitness> decreases s.len() {
+    if s.len() == 0 { Seq::empty() } else {
+        let p = vote_ptrs(s.drop_last(), tag);
+        match s.last().1.script_witness { Some(ScriptWitnessType::PlutusScriptWitness(w)) => p.push(with_ptr(w, (s.len() - 1) as nat, tag)), _ => p }
+    }
+}
+pub proof fn lemma_vote_ptrs_step(s: Seq<(Voter, VoterVotes)>, i: int, tag: RedeemerTag)
+    requires 0 <= i < s.len()
+    ensures vote_ptrs(s.take(i + 1), tag) == (match s[i].1.script_witness { Some(ScriptWitnessType::PlutusScriptWitness(w)) => vote_ptrs(s.take(i), tag).push(with_ptr(w, i as nat, tag)), _ => vote_ptrs(s.take(i), tag) })
+{ assert(s.take(i + 1).drop_last() =~= s.take(i)); }
